@@ -250,7 +250,10 @@ func (r *rw) rewriteNode(n ast.Node) (string, bool) {
 		return "", false
 	case *ast.SendStmt:
 		r.count("send")
-		return fmt.Sprintf("{ __g := simrt.Pre(%q); %s <- %s; simrt.Post(__g) }", r.label(x), r.render(x.Chan), r.render(x.Value)), true
+		// a send on a closed channel panics (goleveldb relies on recovering
+		// from that in cCmd.ack): Post must run on that path too, so that the
+		// woken goroutine parks before it executes anything else.
+		return fmt.Sprintf("func() { __g := simrt.Pre(%q); defer simrt.Post(__g); %s <- %s }()", r.label(x), r.render(x.Chan), r.render(x.Value)), true
 	case *ast.ExprStmt:
 		if u, ok := isRecv(x.X); ok {
 			r.count("recv")
